@@ -34,6 +34,7 @@ Allowed(k, c) == /\ ~(c \in ExprContexts /\ k \in {"unused_variable", "unused_ig
                  \* (missing_await is raised on an expression STATEMENT: only the statement-level contexts)
                  /\ ~(k = "missing_await" /\ c \in ExprContexts \ {"multiline"})
 
+Later == {"missing_await", "unused_comp"}
 CONSTANTS MaxFragments
 
 VARIABLES prog, stage, pending, steps
@@ -42,7 +43,11 @@ vars == <<prog, stage, pending, steps>>
 Init == prog = << >> /\ stage = "gen" /\ pending = << >> /\ steps = 0
 AddFragment ==
     /\ stage = "gen" /\ Len(prog) < MaxFragments
-    /\ \E k \in Kinds, c \in Contexts : Allowed(k, c) /\ prog' = Append(prog, [kind |-> k, ctx |-> c])
+    /\ \E k \in Kinds, c \in Contexts :
+          /\ Allowed(k, c)
+          \* the kinds added later are combined with each other only (their layouts are the subject of FixLayout.tla)
+          /\ (prog # << >>) => ((k \in Later) <=> (prog[1].kind \in Later))
+          /\ prog' = Append(prog, [kind |-> k, ctx |-> c])
     /\ UNCHANGED <<stage, pending, steps>>
 \* order in which the diagnostics are emitted (and hence fixed): unused_ignore is reported after the whole
 \* file has been visited (name_check_visitor.py:1333), everything else in file order
